@@ -232,30 +232,47 @@ structure RS where
   done : Bool
 deriving Repr
 
-/-- `ReadableStream.__init__` -/
-def rsInit {σ} (P : Peer σ) (c : Chan σ) (idx sub : Nat) : Chan σ × Except CErr RS :=
-  let req : Bytes := REQUEST_UPLOAD :: (muxB idx sub ++ [0, 0, 0, 0])
-  match requestResponse P c req with
-  | (c', .error e) => (c', .error e)
-  | (c', .ok r) =>
-    if r.length < 4 then (c', .error .other)                     -- struct.error
+/-- what `ReadableStream.__init__` makes of the initiate response (or of the failure to get one) -/
+def rsInitDecode (idx sub : Nat) (res : Except CErr Bytes) : Except CErr RS :=
+  match res with
+  | .error e => .error e
+  | .ok r =>
+    if r.length < 4 then .error .other                     -- struct.error
     else
       let cmd := r.headD 0
       let rIdx := r.getD 1 0 + 256 * r.getD 2 0
       let rSub := r.getD 3 0
       let resData := (r.drop 4).take 4
-      if cmd &&& 0xE0 ≠ RESPONSE_UPLOAD then (c', .error .comm)
-      else if rIdx ≠ idx ∨ rSub ≠ sub then (c', .error .comm)
+      if cmd &&& 0xE0 ≠ RESPONSE_UPLOAD then .error .comm
+      else if rIdx ≠ idx ∨ rSub ≠ sub then .error .comm
       else if cmd &&& EXPEDITED ≠ 0 then
         if cmd &&& SIZE_SPECIFIED ≠ 0 then
           let sz := 4 - ((cmd >>> 2) &&& 3)
-          (c', .ok { size := some sz, expData := some (resData.take sz), toggle := 0,
-                     pos := (resData.take sz).length, done := false })
-        else (c', .ok { size := none, expData := some resData, toggle := 0, pos := resData.length, done := false })
+          .ok { size := some sz, expData := some (resData.take sz), toggle := 0,
+                pos := (resData.take sz).length, done := false }
+        else .ok { size := none, expData := some resData, toggle := 0, pos := resData.length, done := false }
       else if cmd &&& SIZE_SPECIFIED ≠ 0 then
-        if resData.length ≠ 4 then (c', .error .other)             -- struct.error
-        else (c', .ok { size := some (leVal resData), expData := none, toggle := 0, pos := 0, done := false })
-      else (c', .ok { size := none, expData := none, toggle := 0, pos := 0, done := false })
+        if resData.length ≠ 4 then .error .other             -- struct.error
+        else .ok { size := some (leVal resData), expData := none, toggle := 0, pos := 0, done := false }
+      else .ok { size := none, expData := none, toggle := 0, pos := 0, done := false }
+
+/-- `ReadableStream.__init__` -/
+def rsInit {σ} (P : Peer σ) (c : Chan σ) (idx sub : Nat) : Chan σ × Except CErr RS :=
+  let x := requestResponse P c (REQUEST_UPLOAD :: (muxB idx sub ++ [0, 0, 0, 0]))
+  (x.1, rsInitDecode idx sub x.2)
+
+/-- what one raw `read()` makes of the segment response (or of the failure to get one) -/
+def rsReadDecode (s : RS) (res : Except CErr Bytes) : Except CErr (RS × Bytes) :=
+  match res with
+  | .error e => .error e
+  | .ok r =>
+    let cmd := r.headD 0
+    if cmd &&& 0xE0 ≠ RESPONSE_SEGMENT_UPLOAD then .error .comm
+    else if cmd &&& TOGGLE_BIT ≠ s.toggle then .error .comm
+    else
+      let length := 7 - ((cmd >>> 1) &&& 7)
+      .ok ({ s with done := s.done || (cmd &&& NO_MORE_DATA ≠ 0), toggle := s.toggle ^^^ TOGGLE_BIT,
+                    pos := s.pos + length }, (r.drop 1).take length)
 
 /-- one raw `read(n)` with `n ≥ 0`: at most one segment -/
 def rsRead {σ} (P : Peer σ) (c : Chan σ) (s : RS) : Chan σ × Except CErr (RS × Bytes) :=
@@ -263,18 +280,8 @@ def rsRead {σ} (P : Peer σ) (c : Chan σ) (s : RS) : Chan σ × Except CErr (R
   else match s.expData with
     | some d => (c, .ok ({ s with done := true }, d))
     | none =>
-      let req : Bytes := (REQUEST_SEGMENT_UPLOAD ||| s.toggle) :: List.replicate 7 0
-      match requestResponse P c req with
-      | (c', .error e) => (c', .error e)
-      | (c', .ok r) =>
-        let cmd := r.headD 0
-        if cmd &&& 0xE0 ≠ RESPONSE_SEGMENT_UPLOAD then (c', .error .comm)
-        else if cmd &&& TOGGLE_BIT ≠ s.toggle then (c', .error .comm)
-        else
-          let length := 7 - ((cmd >>> 1) &&& 7)
-          let s' := { s with done := s.done || (cmd &&& NO_MORE_DATA ≠ 0), toggle := s.toggle ^^^ TOGGLE_BIT,
-                             pos := s.pos + length }
-          (c', .ok (s', (r.drop 1).take length))
+      let x := requestResponse P c ((REQUEST_SEGMENT_UPLOAD ||| s.toggle) :: List.replicate 7 0)
+      (x.1, rsReadDecode s x.2)
 
 /-- `readall()`: raw reads until one returns no bytes -/
 def rsReadAll {σ} (P : Peer σ) : Nat → Chan σ → RS → Bytes → Chan σ × Except CErr (RS × Bytes)
